@@ -702,6 +702,70 @@ def inline_fresh_temps(fn, ref_names) -> List[str]:
     return done
 
 
+def _attr_chain(e):
+    """['self', '_itemgetter', 'buffer'] for self._itemgetter.buffer; None for anything else"""
+    parts = []
+    while isinstance(e, ast.Attribute):
+        parts.append(e.attr)
+        e = e.value
+    if isinstance(e, ast.Name) and parts:
+        return [e.id] + parts[::-1]
+    return None
+
+
+def inline_fresh_aliases(fn, ref_names) -> List[str]:
+    """a name outside the reference vocabulary that is bound exactly once, in the main line of the function, to an attribute chain `a.b.c` is an alias: every read of
+    it is replaced by the chain.  Sound when nothing in the function can rebind a link of the chain: no store to `a` or to an attribute named like one of the links, and
+    the base name is a parameter or `self` that is never reassigned."""
+    done = []
+    if uses_dynamic_scope(fn):
+        return done
+    bad = unsafe_names(fn) | params_of(fn) | set(ref_names)
+    stores: Dict[str, int] = {}
+    loads: Dict[str, int] = {}
+    _count_names(fn, set(), stores, loads, top=True)
+    attr_stores = {t.attr for t in ast.walk(fn) if isinstance(t, ast.Attribute) and isinstance(t.ctx, (ast.Store, ast.Del))}
+    body = fn.body
+    for st in list(body):
+        if not (isinstance(st, ast.Assign) and len(st.targets) == 1 and isinstance(st.targets[0], ast.Name)):
+            continue
+        name = st.targets[0].id
+        chain = _attr_chain(st.value)
+        if chain is None or name in bad or stores.get(name) != 1 or not loads.get(name):
+            continue
+        base = chain[0]
+        if stores.get(base, 0) != 0 or base not in params_of(fn):
+            continue
+        if any(a in attr_stores for a in chain[1:]):
+            continue
+        # nested scopes that bind the same name keep their own variable: only replace in scopes where it is free
+        class R(ast.NodeTransformer):
+            def visit_Name(self, n):
+                if n.id == name and isinstance(n.ctx, ast.Load):
+                    import copy
+                    return ast.copy_location(copy.deepcopy(st.value), n)
+                return n
+
+            def _scope(self, n):
+                bound = params_of(n) if not isinstance(n, _COMPS) else set()
+                if isinstance(n, (ast.FunctionDef, ast.AsyncFunctionDef)):
+                    bound |= {x for x, _, _ in binding_sites(n)}
+                if isinstance(n, _COMPS):
+                    for g in n.generators:
+                        bound |= {x.id for x in ast.walk(g.target) if isinstance(x, ast.Name)}
+                if name in bound:
+                    return n
+                return self.generic_visit(n)
+            visit_FunctionDef = visit_AsyncFunctionDef = visit_Lambda = _scope
+            visit_ListComp = visit_SetComp = visit_DictComp = visit_GeneratorExp = _scope
+        idx = body.index(st)
+        for other in body[idx + 1:]:
+            R().visit(other)
+        body.remove(st)
+        done.append(name)
+    return done
+
+
 def _count_names(scope, shadowed: set, stores, loads, top=False):
     """occurrences of the function's own variables: a nested scope that binds a name itself hides it"""
     if not top:
@@ -973,12 +1037,271 @@ def iter_functions(body, prefix: str, seen: Dict[str, int]):
                 yield from iter_functions(h.body, prefix, seen)
 
 
+_ATTR_RE = None
+
+
+def align_attrs(tree: ast.Module, mt: dict) -> dict:
+    """A private attribute that was renamed consistently (every use in the module) is renamed back to the reference name.  Candidates: attribute names of the
+    module that the reference forms of its functions never mention ('fresh') and reference names the module no longer mentions ('vanished'); a fresh name is
+    paired with a vanished one when they are stored at the same position of the same function (`self.X = ...` in `__init__`, mostly) - a bijection, or nothing."""
+    global _ATTR_RE
+    import re as _re
+    if _ATTR_RE is None:
+        _ATTR_RE = _re.compile(r"\.([A-Za-z_][A-Za-z_0-9]*)")
+    cur_attrs = {n.attr for n in ast.walk(tree) if isinstance(n, ast.Attribute)}
+    ref_attrs = set()
+    for ent in mt.values():
+        ref_attrs.update(_ATTR_RE.findall(ent.get("src") or ""))
+    fresh, vanished = cur_attrs - ref_attrs, ref_attrs - cur_attrs
+    if not fresh or not vanished or not ref_attrs:
+        return {}
+    votes: Dict[str, set] = {}
+    for qn, fn in iter_functions(tree.body, "", {}):
+        ref = mt.get(qn)
+        if ref is None or not ref.get("src"):
+            continue
+        try:
+            rfn = ast.parse(ref["src"]).body[0]
+        except (SyntaxError, IndexError):
+            continue
+
+        def stores(f):
+            out = []
+            for st in ast.walk(f):
+                tg = st.targets if isinstance(st, ast.Assign) else [st.target] if isinstance(st, (ast.AugAssign, ast.AnnAssign)) else []
+                for t in tg:
+                    for x in (t.elts if isinstance(t, ast.Tuple) else [t]):
+                        if isinstance(x, ast.Attribute):
+                            out.append((getattr(st, "lineno", 0), x.attr))
+            return [a for _, a in sorted(out, key=lambda p: p[0])]
+        rs, cs = stores(rfn), stores(fn)
+        if len(rs) == len(cs):
+            for a, b in zip(rs, cs):
+                if a != b and a in vanished and b in fresh:
+                    votes.setdefault(b, set()).add(a)
+    mapping = {b: next(iter(a)) for b, a in votes.items() if len(a) == 1}
+    if len(set(mapping.values())) != len(mapping):
+        return {}
+    if mapping:
+        for n in ast.walk(tree):
+            if isinstance(n, ast.Attribute) and n.attr in mapping:
+                n.attr = mapping[n.attr]
+    return mapping
+
+
+def _simple_helper(fn):
+    """(params, defaults, statements, return expression) of a helper whose body is straight-line: docstring / simple assignments to plain names / asserts, then one
+    `return e`.  None for anything else (control flow, yields, nested definitions, *args)."""
+    a = fn.args
+    if a.vararg or a.kwarg or a.kwonlyargs or a.posonlyargs:
+        return None
+    body = list(fn.body)
+    if body and isinstance(body[0], ast.Expr) and isinstance(body[0].value, ast.Constant) and isinstance(body[0].value.value, str):
+        body = body[1:]
+    if not body or not isinstance(body[-1], ast.Return) or body[-1].value is None:
+        return None
+    stmts = body[:-1]
+    for st in stmts:
+        if isinstance(st, ast.Assert):
+            continue
+        if not (isinstance(st, ast.Assign) and len(st.targets) == 1):
+            return None
+        t = st.targets[0]
+        names = t.elts if isinstance(t, (ast.Tuple, ast.List)) else [t]
+        if not all(isinstance(x, ast.Name) for x in names):
+            return None
+    for x in ast.walk(fn):
+        if isinstance(x, (ast.Yield, ast.YieldFrom, ast.Await, ast.Lambda, ast.Global, ast.Nonlocal)) or (isinstance(x, (ast.FunctionDef, ast.AsyncFunctionDef, ast.ClassDef)) and x is not fn):
+            return None
+    params = [x.arg for x in a.args]
+    defaults = dict(zip(params[len(params) - len(a.defaults):], a.defaults))
+    return params, defaults, [st for st in stmts if not isinstance(st, ast.Assert)], body[-1].value
+
+
+def inline_fresh_helpers(tree: ast.Module, mt: dict) -> List[str]:
+    """A function of the module that has no reference form (a helper extracted since the reference tree) and whose body is straight-line is spliced back into its
+    call sites in the functions that do have a reference form: `x = H(a, b)` / `return H(a, b)` / `H(a, b)` as a sub-expression of a simple statement become the
+    helper's statements (parameters replaced by the argument expressions) followed by the statement with the call replaced by the helper's return expression.
+    Sound for the comparison: arguments here are side-effect-free expressions, and a local of the helper that collides with a local of the caller blocks the splice."""
+    import copy
+    fresh = {}
+    by_class = {}
+    for qn, fn in iter_functions(tree.body, "", {}):
+        if qn in mt or ".<locals>." in qn:
+            continue
+        h = _simple_helper(fn)
+        if h is None:
+            continue
+        is_static = any(isinstance(d, ast.Name) and d.id == "staticmethod" for d in fn.decorator_list)
+        is_cls = any(isinstance(d, ast.Name) and d.id == "classmethod" for d in fn.decorator_list)
+        if any(not (isinstance(d, ast.Name) and d.id in ("staticmethod", "classmethod")) for d in fn.decorator_list):
+            continue
+        fresh[qn] = (fn, h, is_static, is_cls)
+    if not fresh:
+        return []
+    done = []
+
+    def resolve(call, caller_qn):
+        """the fresh helper a call refers to, and the expression bound to its first parameter (self / cls) if any"""
+        f = call.func
+        cls_prefix = caller_qn.rsplit(".", 1)[0] + "." if "." in caller_qn else ""
+        if isinstance(f, ast.Name) and f.id in fresh and "." not in f.id:
+            return f.id, None
+        if isinstance(f, ast.Attribute) and isinstance(f.value, ast.Name):
+            base, nm = f.value.id, f.attr
+            if base in ("self", "cls") and cls_prefix + nm in fresh:
+                return cls_prefix + nm, f.value
+            if base in ("self", "cls"):
+                # a helper of a base class of the same module, reached through inheritance: followed when the name is unique among the fresh helpers and
+                # no class of the module defines a method of that name that has a reference form
+                cands = [k for k in fresh if k.endswith("." + nm)]
+                if len(cands) == 1 and not any(k.endswith("." + nm) for k in mt):
+                    return cands[0], f.value
+            if base + "." + nm in fresh:
+                return base + "." + nm, None
+        return None, None
+
+    def splice(block, caller, caller_qn):
+        out = []
+        changed = False
+        for st in block:
+            for fld in ("body", "orelse", "finalbody"):
+                sub = getattr(st, fld, None)
+                if isinstance(sub, list) and sub and isinstance(sub[0], ast.stmt):
+                    nb, ch = splice(sub, caller, caller_qn)
+                    setattr(st, fld, nb)
+                    changed |= ch
+            for hd in getattr(st, "handlers", []) or []:
+                hd.body, ch = splice(hd.body, caller, caller_qn)
+                changed |= ch
+            if not isinstance(st, (ast.Assign, ast.AugAssign, ast.Return, ast.Expr, ast.AnnAssign)):
+                out.append(st)
+                continue
+            calls = [c for c in ast.walk(st) if isinstance(c, ast.Call) and resolve(c, caller_qn)[0]]
+            if len(calls) != 1:
+                out.append(st)
+                continue
+            call = calls[0]
+            key, first = resolve(call, caller_qn)
+            fn, (params, defaults, hstmts, ret), is_static, is_cls = fresh[key]
+            ps = list(params)
+            bind = {}
+            if "." in key and not is_static:
+                if not ps:
+                    out.append(st); continue
+                bind[ps[0]] = first if first is not None else ast.Name(id=key.rsplit(".", 1)[0].split(".")[-1], ctx=ast.Load())
+                if first is None and not is_cls:
+                    out.append(st); continue        # unbound call of an instance method: not followed
+                ps = ps[1:]
+            if any(isinstance(a, ast.Starred) for a in call.args) or any(k.arg is None for k in call.keywords) or len(call.args) > len(ps):
+                out.append(st); continue
+            for p_, a_ in zip(ps, call.args):
+                bind[p_] = a_
+            for k in call.keywords:
+                if k.arg not in ps or k.arg in bind:
+                    bind = None
+                    break
+                bind[k.arg] = k.value
+            if bind is None:
+                out.append(st); continue
+            for p_ in ps:
+                if p_ not in bind:
+                    if p_ in defaults:
+                        bind[p_] = defaults[p_]
+                    else:
+                        bind = None
+                        break
+            if bind is None:
+                out.append(st); continue
+            hlocals = {x.id for h_ in hstmts for x in ast.walk(h_.targets[0]) if isinstance(x, ast.Name)}
+            caller_names = {x.id for x in ast.walk(caller) if isinstance(x, ast.Name)} | params_of(caller)
+            own_targets = set()
+            if isinstance(st, ast.Assign) and len(st.targets) == 1:
+                own_targets = {x.id for x in ast.walk(st.targets[0]) if isinstance(x, ast.Name)}
+            n_stores = {}
+            for x in ast.walk(caller):
+                if isinstance(x, ast.Name) and isinstance(x.ctx, ast.Store):
+                    n_stores[x.id] = n_stores.get(x.id, 0) + 1
+            clash = {h_ for h_ in hlocals & caller_names if not (h_ in own_targets and n_stores.get(h_, 0) == 1 and h_ not in params_of(caller))}
+            if clash or hlocals & set(bind):
+                out.append(st); continue
+            # a parameter that the helper rebinds cannot be substituted
+            if any(isinstance(x, ast.Name) and isinstance(x.ctx, ast.Store) and x.id in bind for h_ in hstmts for x in ast.walk(h_)):
+                out.append(st); continue
+
+            class Sub(ast.NodeTransformer):
+                def visit_Name(self, n):
+                    if isinstance(n.ctx, ast.Load) and n.id in bind:
+                        return ast.copy_location(copy.deepcopy(bind[n.id]), n)
+                    return n
+
+                def visit_Call(self, n):
+                    self.generic_visit(n)
+                    # getattr(x, 'name') with the name now a constant is the attribute itself
+                    if isinstance(n.func, ast.Name) and n.func.id == "getattr" and len(n.args) == 2 and not n.keywords and isinstance(n.args[1], ast.Constant) \
+                            and isinstance(n.args[1].value, str) and n.args[1].value.isidentifier():
+                        return ast.copy_location(ast.Attribute(value=n.args[0], attr=n.args[1].value, ctx=ast.Load()), n)
+                    return n
+            new_stmts = [ast.copy_location(Sub().visit(copy.deepcopy(h_)), st) for h_ in hstmts]
+            new_ret = Sub().visit(copy.deepcopy(ret))
+
+            class Rep(ast.NodeTransformer):
+                def visit_Call(self, n):
+                    if n is call:
+                        return ast.copy_location(new_ret, n)
+                    return self.generic_visit(n)
+            st2 = Rep().visit(st)
+            tail = [st2]
+            if isinstance(st2, ast.Assign) and len(st2.targets) == 1 and isinstance(st2.targets[0], ast.Tuple) and isinstance(st2.value, ast.Tuple) \
+                    and len(st2.targets[0].elts) == len(st2.value.elts) and all(isinstance(t_, ast.Name) for t_ in st2.targets[0].elts):
+                # `a, b = (x, y)` element by element; `a = a` disappears
+                tail = []
+                for t_, v_ in zip(st2.targets[0].elts, st2.value.elts):
+                    if isinstance(v_, ast.Name) and v_.id == t_.id:
+                        continue
+                    tail.append(ast.copy_location(ast.Assign(targets=[t_], value=v_), st2))
+            elif isinstance(st2, ast.Assign) and len(st2.targets) == 1 and isinstance(st2.targets[0], ast.Name) and isinstance(st2.value, ast.Name) \
+                    and st2.targets[0].id == st2.value.id:
+                tail = []
+            for x in new_stmts:
+                for y in ast.walk(x):
+                    if hasattr(y, "lineno"):
+                        y.lineno = st.lineno
+            out.extend(new_stmts)
+            out.extend(tail)
+            changed = True
+            if key not in done:
+                done.append(key)
+        return out, changed
+
+    for qn, fn in list(iter_functions(tree.body, "", {})):
+        if qn not in mt:
+            continue
+        for _ in range(4):        # helpers calling helpers
+            nb, ch = splice(fn.body, fn, qn)
+            fn.body = nb
+            if not ch:
+                break
+        ast.fix_missing_locations(fn)
+    return done
+
+
 def normalize_module(tree: ast.Module, modname: str, table: Optional[dict] = None) -> dict:
     """in place; returns {'renamed': {qualname: {actual: ref}}, 'inlined': {qualname: [names]}}"""
     table = load_table() if table is None else table
     stats = {"renamed": {}, "inlined": {}}
     flip_ifs(tree)
     mt = table.get(modname, {})
+    if mt:
+        ra = align_attrs(tree, mt)
+        if ra:
+            stats["attrs"] = ra
+        try:
+            hs = inline_fresh_helpers(tree, mt)
+        except RecursionError:
+            hs = []
+        if hs:
+            stats["helpers"] = hs
     for qn, fn in list(iter_functions(tree.body, "", {})):
         ref = mt.get(qn)
         if ref is None:
@@ -992,7 +1315,7 @@ def normalize_module(tree: ast.Module, modname: str, table: Optional[dict] = Non
         if m:
             rename_locals(fn, m)
             stats["renamed"][qn] = m
-        inl = inline_fresh_temps(fn, ref["locals"])
+        inl = inline_fresh_temps(fn, ref["locals"]) + inline_fresh_aliases(fn, ref["locals"])
         if inl:
             stats["inlined"][qn] = inl
         if align_comps(fn, ref):
